@@ -1,10 +1,11 @@
-// Replay program of the two known C02 findings (see /verif/known_findings.txt, /verif/status/C02.md).
+// Replay program of the C02 findings (see /verif/known_findings.txt, /verif/status/C02.md).
 //
 //	go run .                                  prints the sinks reached by the unvalidated marker
-//	argot taint -config config.yaml .         (validators configured)    reports only sink4
+//	argot taint -config config.yaml .         (validators configured)    reports sink3 and sink4 (before /repo 28b75c7: sink4 only)
 //	argot taint -config config_b.yaml .       (no validator spec)        reports sink1..sink4
 //
-// sink1, sink2: key validator-single-path; sink3: key validator-dup-last-block; sink4: control (reported).
+// sink1, sink2: open finding validator-single-path; sink3: validator-dup-last-block, FIXED by /repo commit 28b75c7 (kept as a
+// regression case: it must be reported); sink4: control (reported).
 package main
 
 import (
